@@ -36,10 +36,12 @@ type recConn struct {
 	count   int
 	once    sync.Once
 	closedC chan struct{} // closed when the Mux calls Close on its trunk
+	bigOnce sync.Once
+	bigC    chan struct{} // closed when the first Write of a MiB or more starts
 }
 
 func newRec(c net.Conn, budget int) *recConn {
-	r := &recConn{Conn: c, budget: budget, keep: true, closedC: make(chan struct{})}
+	r := &recConn{Conn: c, budget: budget, keep: true, closedC: make(chan struct{}), bigC: make(chan struct{})}
 	if budget == 0 {
 		// nothing may be written at all: the outgoing direction is already down
 		r.broken = true
@@ -66,6 +68,9 @@ func (r *recConn) Close() error {
 // socket anyway (the fd write lock), so this adds no ordering the Mux does not
 // already get, and the log is in wire order.
 func (r *recConn) Write(p []byte) (int, error) {
+	if len(p) >= 1<<20 {
+		r.bigOnce.Do(func() { close(r.bigC) })
+	}
 	r.mu.Lock()
 	defer r.mu.Unlock()
 	if r.broken {
